@@ -32,33 +32,89 @@ func (c09) Gen(tier string, seed int64, emit func([]Ev)) {
 		n = 40000
 	}
 	for i := 0; i < n; i++ {
-		var h []Ev
-		nseg := 0
-		kind := "null"
-		if i%3 == 0 { // start from a decoded canonical section
-			s := rndSig(r)
-			for !(s.Cmd.Kind == "null" || s.Cmd.Kind == "time" || s.Cmd.Kind == "insert") {
-				s = rndSig(r)
+		emit(c09History(r, i, tier))
+	}
+}
+
+// c09History draws one history (decode or create, setter calls, encodes) from r; r may be driven by a fuzzer's bytes.
+func c09History(r *rand.Rand, i int, tier string) []Ev {
+	var h []Ev
+	nseg := 0
+	kind := "null"
+	if i%3 == 0 { // start from a decoded canonical section
+		s := rndSig(r)
+		for !(s.Cmd.Kind == "null" || s.Cmd.Kind == "time" || s.Cmd.Kind == "insert") {
+			s = rndSig(r)
+		}
+		if i%30 == 0 && (tier != "thorough" || i%600 == 0) {
+			growSig(r, &s, 1024+r.Intn(400)) // re-encoding a section longer than 1023 bytes
+		}
+		kind = s.Cmd.Kind
+		order := []string{}
+		foreign := []Ev{}
+		for _, d := range s.Descs {
+			if d.Kind == "seg" {
+				order = append(order, "s")
+				nseg++
+			} else {
+				order = append(order, "f")
+				foreign = append(foreign, Ev{"tag": d.Tag, "body": B(d.Body)})
 			}
-			if i%30 == 0 && (tier != "thorough" || i%600 == 0) {
-				growSig(r, &s, 1024+r.Intn(400)) // re-encoding a section longer than 1023 bytes
-			}
-			kind = s.Cmd.Kind
-			order := []string{}
-			foreign := []Ev{}
-			for _, d := range s.Descs {
-				if d.Kind == "seg" {
-					order = append(order, "s")
-					nseg++
-				} else {
-					order = append(order, "f")
-					foreign = append(foreign, Ev{"tag": d.Tag, "body": B(d.Body)})
+		}
+		h = append(h, Ev{"op": "encode", "how": "decode", "src_abs": s.ev(), "src": B(s.section()), "order": order, "foreign": foreign})
+		if kind == "insert" && len(s.Cmd.Comps) > 0 && !s.Cmd.Cancel {
+			for q := 1 + r.Intn(3); q > 0; q-- {
+				e := Ev{"op": "set", "target": "cmd", "k": r.Intn(4), "fresh": r.Intn(4) == 0}
+				switch r.Intn(3) {
+				case 0:
+					e["field"], e["arg"] = "ins.comp.tag", r.Intn(256)
+				case 1:
+					e["field"], e["arg"] = "ins.comp.haspts", r.Intn(2) == 0
+				default:
+					e["field"], e["arg"] = "ins.comp.pts", W64(c09Arg33(r, true))
 				}
+				h = append(h, e)
 			}
-			h = append(h, Ev{"op": "encode", "how": "decode", "src_abs": s.ev(), "src": B(s.section()), "order": order, "foreign": foreign})
-			if kind == "insert" && len(s.Cmd.Comps) > 0 && !s.Cmd.Cancel {
-				for q := 1 + r.Intn(3); q > 0; q-- {
-					e := Ev{"op": "set", "target": "cmd", "k": r.Intn(4), "fresh": r.Intn(4) == 0}
+		}
+	} else {
+		kind = []string{"null", "time", "time", "insert", "insert"}[r.Intn(5)]
+		nseg = r.Intn(3)
+		h = append(h, Ev{"op": "set", "how": "create", "cmdkind": kind, "nseg": nseg, "target": "sig", "field": "tier", "arg": r.Intn(65536)})
+	}
+	steps := 6 + r.Intn(18)
+	for k := 0; k < steps; k++ {
+		e := Ev{"op": "set"}
+		x := r.Intn(10)
+		switch {
+		case x < 2:
+			e["target"] = "sig"
+			switch r.Intn(5) {
+			case 4:
+				e["field"], e["arg"] = "astuff", r.Intn(5)
+			case 0:
+				e["field"], e["arg"] = "tier", r.Intn(65536)
+			case 1:
+				e["field"], e["arg"] = "pts", W64(rnd33(r))
+			case 2:
+				e["field"], e["arg"] = "adjustpts", W64(rnd33(r))
+			case 3:
+				e["field"], e["arg"] = "haspts", r.Intn(2) == 0
+			}
+		case x < 5 && kind != "null":
+			e["target"] = "cmd"
+			if kind == "time" {
+				if r.Intn(2) == 0 {
+					e["field"], e["arg"] = "cmd.haspts", r.Intn(2) == 0
+				} else {
+					e["field"], e["arg"] = "cmd.pts", W64(c09Arg33(r, true))
+				}
+			} else {
+				switch r.Intn(16) {
+				case 13, 14, 15:
+					// the components of a component-mode splice_insert are edited in place through the
+					// Components() list (entries have setters; an entry can be replaced by CreateComponent())
+					e["k"] = r.Intn(4)
+					e["fresh"] = r.Intn(4) == 0
 					switch r.Intn(3) {
 					case 0:
 						e["field"], e["arg"] = "ins.comp.tag", r.Intn(256)
@@ -67,205 +123,165 @@ func (c09) Gen(tier string, seed int64, emit func([]Ev)) {
 					default:
 						e["field"], e["arg"] = "ins.comp.pts", W64(c09Arg33(r, true))
 					}
-					h = append(h, e)
-				}
-			}
-		} else {
-			kind = []string{"null", "time", "time", "insert", "insert"}[r.Intn(5)]
-			nseg = r.Intn(3)
-			h = append(h, Ev{"op": "set", "how": "create", "cmdkind": kind, "nseg": nseg, "target": "sig", "field": "tier", "arg": r.Intn(65536)})
-		}
-		steps := 6 + r.Intn(18)
-		for k := 0; k < steps; k++ {
-			e := Ev{"op": "set"}
-			x := r.Intn(10)
-			switch {
-			case x < 2:
-				e["target"] = "sig"
-				switch r.Intn(5) {
-				case 4:
-					e["field"], e["arg"] = "astuff", r.Intn(5)
 				case 0:
-					e["field"], e["arg"] = "tier", r.Intn(65536)
+					e["field"], e["arg"] = "ins.eid", eid4(rndEid(r))
 				case 1:
-					e["field"], e["arg"] = "pts", W64(rnd33(r))
+					e["field"], e["arg"] = "ins.out", r.Intn(2) == 0
 				case 2:
-					e["field"], e["arg"] = "adjustpts", W64(rnd33(r))
+					e["field"], e["arg"] = "ins.cancel", r.Intn(3) == 0
 				case 3:
-					e["field"], e["arg"] = "haspts", r.Intn(2) == 0
-				}
-			case x < 5 && kind != "null":
-				e["target"] = "cmd"
-				if kind == "time" {
-					if r.Intn(2) == 0 {
-						e["field"], e["arg"] = "cmd.haspts", r.Intn(2) == 0
-					} else {
-						e["field"], e["arg"] = "cmd.pts", W64(c09Arg33(r, true))
-					}
-				} else {
-					switch r.Intn(16) {
-					case 13, 14, 15:
-						// the components of a component-mode splice_insert are edited in place through the
-						// Components() list (entries have setters; an entry can be replaced by CreateComponent())
-						e["k"] = r.Intn(4)
-						e["fresh"] = r.Intn(4) == 0
-						switch r.Intn(3) {
-						case 0:
-							e["field"], e["arg"] = "ins.comp.tag", r.Intn(256)
-						case 1:
-							e["field"], e["arg"] = "ins.comp.haspts", r.Intn(2) == 0
-						default:
-							e["field"], e["arg"] = "ins.comp.pts", W64(c09Arg33(r, true))
-						}
-					case 0:
-						e["field"], e["arg"] = "ins.eid", eid4(rndEid(r))
-					case 1:
-						e["field"], e["arg"] = "ins.out", r.Intn(2) == 0
-					case 2:
-						e["field"], e["arg"] = "ins.cancel", r.Intn(3) == 0
-					case 3:
-						e["field"], e["arg"] = "cmd.haspts", r.Intn(2) == 0
-					case 4:
-						e["field"], e["arg"] = "cmd.pts", W64(c09Arg33(r, true))
-					case 5:
-						e["field"], e["arg"] = "ins.hasdur", r.Intn(2) == 0
-					case 6:
-						e["field"], e["arg"] = "ins.dur", W64(rnd33(r))
-					case 7:
-						e["field"], e["arg"] = "ins.autoret", r.Intn(2) == 0
-					case 8:
-						e["field"], e["arg"] = "ins.upid", r.Intn(65536)
-					case 9:
-						e["field"], e["arg"] = "ins.avail", r.Intn(256)
-					case 10:
-						e["field"], e["arg"] = "ins.avails", r.Intn(256)
-					case 11:
-						e["field"], e["arg"] = "ins.program", r.Intn(2) == 0
-					case 12:
-						e["field"], e["arg"] = "ins.immediate", r.Intn(2) == 0
-					}
-				}
-			case x < 9 && nseg > 0:
-				e["target"] = fmt.Sprintf("seg:%d", r.Intn(nseg))
-				switch r.Intn(22) {
-				case 0:
-					e["field"], e["arg"] = "seg.eid", eid4(rndEid(r))
-				case 1:
-					t := segTypes[r.Intn(len(segTypes))]
-					if r.Intn(3) == 0 {
-						t = []int{0x34, 0x36}[r.Intn(2)] // the two types that keep sub-segment fields
-					}
-					e["field"], e["arg"] = "seg.type", t
-					if r.Intn(3) == 0 {
-						// a descriptor of a sub-segment type with the flag set, then retyped (to the other
-						// sub-segment type, the same one, or any other type)
-						h = append(h, Ev{"op": "set", "target": e["target"], "field": "seg.type", "arg": []int{0x34, 0x36}[r.Intn(2)]},
-							Ev{"op": "set", "target": e["target"], "field": "seg.hassub", "arg": true})
-					}
-				case 2:
-					e["field"], e["arg"] = "seg.cancel", r.Intn(4) == 0
-				case 3:
-					e["field"], e["arg"] = "seg.hasdur", r.Intn(2) == 0
+					e["field"], e["arg"] = "cmd.haspts", r.Intn(2) == 0
 				case 4:
-					v := rnd40(r)
-					if r.Intn(3) == 0 {
-						v |= 1 << 45 // documented: truncated to 40 bits
-					}
-					e["field"], e["arg"] = "seg.dur", W64(v)
+					e["field"], e["arg"] = "cmd.pts", W64(c09Arg33(r, true))
 				case 5:
-					e["field"], e["arg"] = "seg.upidtype", []int{0, 1, 8, 9, 13, 13, 14, 15, -1, -1}[r.Intn(10)] // -1: the type it already has
+					e["field"], e["arg"] = "ins.hasdur", r.Intn(2) == 0
 				case 6:
-					e["field"], e["arg"] = "seg.upid", B(rndBytes(r, r.Intn(14)))
+					e["field"], e["arg"] = "ins.dur", W64(rnd33(r))
 				case 7:
-					e["field"], e["arg"] = "seg.segnum", r.Intn(256)
+					e["field"], e["arg"] = "ins.autoret", r.Intn(2) == 0
 				case 8:
-					e["field"], e["arg"] = "seg.segexp", r.Intn(256)
+					e["field"], e["arg"] = "ins.upid", r.Intn(65536)
 				case 9:
-					e["field"], e["arg"] = "seg.subnum", r.Intn(256)
+					e["field"], e["arg"] = "ins.avail", r.Intn(256)
 				case 10:
-					e["field"], e["arg"] = "seg.subexp", r.Intn(256)
+					e["field"], e["arg"] = "ins.avails", r.Intn(256)
 				case 11:
-					e["field"], e["arg"] = "seg.progseg", r.Intn(2) == 0
+					e["field"], e["arg"] = "ins.program", r.Intn(2) == 0
 				case 12:
-					e["field"], e["arg"] = "seg.dnr", r.Intn(2) == 0
-				case 13:
-					e["field"], e["arg"] = "seg.web", r.Intn(2) == 0
-				case 14:
-					e["field"], e["arg"] = "seg.arch", r.Intn(2) == 0
-				case 15:
-					e["field"], e["arg"] = "seg.noblk", r.Intn(2) == 0
-				case 16:
-					e["field"], e["arg"] = "seg.dev", r.Intn(4)
-				case 17:
-					e["field"], e["arg"] = "seg.hassub", r.Intn(2) == 0
-				case 18, 19, 20, 21:
-					if w := r.Intn(4); w >= 2 {
-						// read-modify-write: the descriptor's own Components()/MID() views handed back
-						// in another order, some dropped, fresh ones inserted (plan: -1 = a fresh entry)
-						plan := []int{}
-						for q := r.Intn(5); q > 0; q-- {
-							plan = append(plan, r.Intn(5)-1)
-						}
-						fresh := []Ev{}
-						for range plan {
-							fresh = append(fresh, Ev{"tag": r.Intn(256), "off": W64(rnd33(r)), "type": []int{9, 14, 1}[r.Intn(3)], "upid": B(rndBytes(r, r.Intn(10)))})
-						}
-						e["field"], e["plan"], e["fresh"] = []string{"seg.comps", "seg.mid"}[w-2], plan, fresh
-						e["arg"] = []Ev{} // resolved at execution time from the views read before the call
-						if r.Intn(3) != 0 {
-							// make sure there is something to reorder: a fresh list of 2..4 entries first
-							pre := Ev{"op": "set", "target": e["target"], "field": e["field"]}
-							l := []Ev{}
-							for q := 2 + r.Intn(3); q > 0; q-- {
-								if w == 2 {
-									l = append(l, Ev{"tag": r.Intn(256), "off": W64(rnd33(r))})
-								} else {
-									l = append(l, Ev{"type": []int{9, 14, 1}[r.Intn(3)], "upid": B(rndBytes(r, 1+r.Intn(9)))})
-								}
-							}
-							pre["arg"] = l
-							h = append(h, pre)
-						}
-					} else if w == 0 {
-						m := []Ev{}
-						for q := r.Intn(3); q > 0; q-- {
-							m = append(m, Ev{"type": []int{9, 14, 1}[r.Intn(3)], "upid": B(rndBytes(r, r.Intn(10)))})
-						}
-						e["field"], e["arg"] = "seg.mid", m
-					} else {
-						cs := []Ev{}
-						for q := r.Intn(3); q > 0; q-- {
-							cs = append(cs, Ev{"tag": r.Intn(256), "off": W64(rnd33(r))})
-						}
-						e["field"], e["arg"] = "seg.comps", cs
+					e["field"], e["arg"] = "ins.immediate", r.Intn(2) == 0
+				}
+			}
+		case x < 9 && nseg > 0:
+			e["target"] = fmt.Sprintf("seg:%d", r.Intn(nseg))
+			switch r.Intn(22) {
+			case 0:
+				e["field"], e["arg"] = "seg.eid", eid4(rndEid(r))
+			case 1:
+				t := segTypes[r.Intn(len(segTypes))]
+				if r.Intn(3) == 0 {
+					t = []int{0x34, 0x36}[r.Intn(2)] // the two types that keep sub-segment fields
+				}
+				e["field"], e["arg"] = "seg.type", t
+				if r.Intn(3) == 0 {
+					// a descriptor of a sub-segment type with the flag set, then retyped (to the other
+					// sub-segment type, the same one, or any other type)
+					h = append(h, Ev{"op": "set", "target": e["target"], "field": "seg.type", "arg": []int{0x34, 0x36}[r.Intn(2)]},
+						Ev{"op": "set", "target": e["target"], "field": "seg.hassub", "arg": true})
+				}
+			case 2:
+				e["field"], e["arg"] = "seg.cancel", r.Intn(4) == 0
+			case 3:
+				e["field"], e["arg"] = "seg.hasdur", r.Intn(2) == 0
+			case 4:
+				v := rnd40(r)
+				if r.Intn(3) == 0 {
+					v |= 1 << 45 // documented: truncated to 40 bits
+				}
+				e["field"], e["arg"] = "seg.dur", W64(v)
+			case 5:
+				e["field"], e["arg"] = "seg.upidtype", []int{0, 1, 8, 9, 13, 13, 14, 15, -1, -1}[r.Intn(10)] // -1: the type it already has
+			case 6:
+				e["field"], e["arg"] = "seg.upid", B(rndBytes(r, r.Intn(14)))
+			case 7:
+				e["field"], e["arg"] = "seg.segnum", r.Intn(256)
+			case 8:
+				e["field"], e["arg"] = "seg.segexp", r.Intn(256)
+			case 9:
+				e["field"], e["arg"] = "seg.subnum", r.Intn(256)
+			case 10:
+				e["field"], e["arg"] = "seg.subexp", r.Intn(256)
+			case 11:
+				e["field"], e["arg"] = "seg.progseg", r.Intn(2) == 0
+			case 12:
+				e["field"], e["arg"] = "seg.dnr", r.Intn(2) == 0
+			case 13:
+				e["field"], e["arg"] = "seg.web", r.Intn(2) == 0
+			case 14:
+				e["field"], e["arg"] = "seg.arch", r.Intn(2) == 0
+			case 15:
+				e["field"], e["arg"] = "seg.noblk", r.Intn(2) == 0
+			case 16:
+				e["field"], e["arg"] = "seg.dev", r.Intn(4)
+			case 17:
+				e["field"], e["arg"] = "seg.hassub", r.Intn(2) == 0
+			case 18, 19, 20, 21:
+				if w := r.Intn(4); w >= 2 {
+					// read-modify-write: the descriptor's own Components()/MID() views handed back
+					// in another order, some dropped, fresh ones inserted (plan: -1 = a fresh entry)
+					plan := []int{}
+					for q := r.Intn(5); q > 0; q-- {
+						plan = append(plan, r.Intn(5)-1)
 					}
+					fresh := []Ev{}
+					for range plan {
+						fresh = append(fresh, Ev{"tag": r.Intn(256), "off": W64(rnd33(r)), "type": []int{9, 14, 1}[r.Intn(3)], "upid": B(rndBytes(r, r.Intn(10)))})
+					}
+					e["field"], e["plan"], e["fresh"] = []string{"seg.comps", "seg.mid"}[w-2], plan, fresh
+					e["arg"] = []Ev{} // resolved at execution time from the views read before the call
+					if r.Intn(3) != 0 {
+						// make sure there is something to reorder: a fresh list of 2..4 entries first
+						pre := Ev{"op": "set", "target": e["target"], "field": e["field"]}
+						l := []Ev{}
+						for q := 2 + r.Intn(3); q > 0; q-- {
+							if w == 2 {
+								l = append(l, Ev{"tag": r.Intn(256), "off": W64(rnd33(r))})
+							} else {
+								l = append(l, Ev{"type": []int{9, 14, 1}[r.Intn(3)], "upid": B(rndBytes(r, 1+r.Intn(9)))})
+							}
+						}
+						pre["arg"] = l
+						h = append(h, pre)
+					}
+				} else if w == 0 {
+					m := []Ev{}
+					for q := r.Intn(3); q > 0; q-- {
+						m = append(m, Ev{"type": []int{9, 14, 1}[r.Intn(3)], "upid": B(rndBytes(r, r.Intn(10)))})
+					}
+					e["field"], e["arg"] = "seg.mid", m
+				} else {
+					cs := []Ev{}
+					for q := r.Intn(3); q > 0; q-- {
+						cs = append(cs, Ev{"tag": r.Intn(256), "off": W64(rnd33(r))})
+					}
+					e["field"], e["arg"] = "seg.comps", cs
 				}
-			default:
-				e = Ev{"op": "encode", "how": ""}
 			}
-			if GS(e["op"]) == "set" && nseg > 0 && r.Intn(14) == 0 {
-				// a descriptor made to carry a multiple-UPID list, then given the UPID type it already has
-				tg := fmt.Sprintf("seg:%d", r.Intn(nseg))
-				l := []Ev{}
-				for q := 1 + r.Intn(3); q > 0; q-- {
-					l = append(l, Ev{"type": []int{9, 14, 1}[r.Intn(3)], "upid": B(rndBytes(r, 1+r.Intn(9)))})
-				}
-				h = append(h, Ev{"op": "set", "target": tg, "field": "seg.upidtype", "arg": 13},
-					Ev{"op": "set", "target": tg, "field": "seg.mid", "arg": l},
-					Ev{"op": "set", "target": tg, "field": "seg.upidtype", "arg": -1})
-			}
-			h = append(h, e)
-			if _, own := e["plan"]; GS(e["op"]) == "set" && !own && e["how"] == nil && r.Intn(6) == 0 {
-				// the same call again with the same argument: the second one must change nothing
-				e2 := Ev{"repeat": true}
-				for k, v := range e {
-					e2[k] = v
-				}
-				h = append(h, e2)
-			}
+		default:
+			e = Ev{"op": "encode", "how": ""}
 		}
-		h = append(h, Ev{"op": "encode", "how": ""})
-		emit(h)
+		if GS(e["op"]) == "set" && nseg > 0 && r.Intn(14) == 0 {
+			// a descriptor made to carry a multiple-UPID list, then given the UPID type it already has
+			tg := fmt.Sprintf("seg:%d", r.Intn(nseg))
+			l := []Ev{}
+			for q := 1 + r.Intn(3); q > 0; q-- {
+				l = append(l, Ev{"type": []int{9, 14, 1}[r.Intn(3)], "upid": B(rndBytes(r, 1+r.Intn(9)))})
+			}
+			h = append(h, Ev{"op": "set", "target": tg, "field": "seg.upidtype", "arg": 13},
+				Ev{"op": "set", "target": tg, "field": "seg.mid", "arg": l},
+				Ev{"op": "set", "target": tg, "field": "seg.upidtype", "arg": -1})
+		}
+		h = append(h, e)
+		if _, own := e["plan"]; GS(e["op"]) == "set" && !own && e["how"] == nil && r.Intn(6) == 0 {
+			// the same call again with the same argument: the second one must change nothing
+			e2 := Ev{"repeat": true}
+			for k, v := range e {
+				e2[k] = v
+			}
+			h = append(h, e2)
+		}
+	}
+	h = append(h, Ev{"op": "encode", "how": ""})
+	return h
+}
+
+// GenRows: the fuzzer's bytes drive the same history generator (structured fuzzing).
+func (c09) GenRows(rows []Ev, tier string, seed int64, emit func([]Ev)) {
+	for _, row := range rows {
+		i := GI(row["opi"])
+		if i%30 == 0 {
+			i++ // long sections stay with the deterministic generator
+		}
+		emit(c09History(rand.New(&byteSrc{b: GB(row["in"])}), i, "quick"))
 	}
 }
 
